@@ -3,11 +3,12 @@
 From Coq Require Import String.
 From TT Require Import Lib.Base Lib.Sort Model.Utf8 Model.MimeCt Gen.Ctc16 Model.Content Spec.C16.
 
-Definition w_init (data : list N) (pos : nat) : world := {| w_data := data; w_pos := pos; w_reads := 0; w_heap := [] |}.
+Definition w_init (data : list N) (pos : nat) (sizes : list nat) : world :=
+  {| w_data := data; w_pos := pos; w_reads := 0; w_heap := []; w_sizes := sizes |}.
 (* the harness overwrites the source between creation and iteration (its own accesses are not counted) *)
 Definition set_source (w : world) (data : list N) (pos : nat) : world :=
-  {| w_data := data; w_pos := pos; w_reads := w_reads w; w_heap := w_heap w |}.
-Definition w0 : world := w_init [] 0.    (* scenarios without a mutable source *)
+  {| w_data := data; w_pos := pos; w_reads := w_reads w; w_heap := w_heap w; w_sizes := w_sizes w |}.
+Definition w0 : world := w_init [] 0 [].    (* scenarios without a mutable source *)
 
 Definition joined (r : res (list chunk) exn) : list N := match r with Ok cs => concat cs | Raised _ => [] end.
 
@@ -27,7 +28,7 @@ Fixpoint rle {A} (eqb : A -> A -> bool) (l : list A) : list (A * nat) :=
   end.
 
 Definition model_reader (r : reader_in) : obs :=
-  let wa := w_init (r_data0 r) (r_pos0 r) in
+  let wa := w_init (r_data0 r) (r_pos0 r) (r_sizes r) in
   match content_from_source (r_kind r) None (r_chunk r) (r_buffer r) (r_seek r) wa with
   | (Raised e, wb) => OReader (Some e) (Nat.ltb 0 (w_reads wb)) (Raised e) false (Raised e) false
   | (Ok c, wb) =>
@@ -38,7 +39,7 @@ Definition model_reader (r : reader_in) : obs :=
   end.
 
 Definition model_snap (r : reader_in) : obs :=
-  let wa := w_init (r_data0 r) (r_pos0 r) in
+  let wa := w_init (r_data0 r) (r_pos0 r) (r_sizes r) in
   match content_from_source (r_kind r) None (r_chunk r) false (r_seek r) wa with
   | (Raised e, _) => OSnap (Some e) false (Raised e) (Raised e) false (Raised e)     (* cannot happen: lazy *)
   | (Ok c, wb) =>
@@ -55,10 +56,11 @@ Definition model_snap (r : reader_in) : obs :=
 
 (* the harness mutates the source list (location 0) after the copy was made *)
 Definition mutate (w : world) (l : loc) (v : list chunk) : world :=
-  {| w_data := w_data w; w_pos := w_pos w; w_reads := w_reads w; w_heap := heap_set l v (w_heap w) |}.
+  {| w_data := w_data w; w_pos := w_pos w; w_reads := w_reads w; w_heap := heap_set l v (w_heap w);
+     w_sizes := w_sizes w |}.
 
 Definition model_snaplist (r : snaplist_in) : obs :=
-  let wa := {| w_data := []; w_pos := 0; w_reads := 0; w_heap := [sl_buf r] |} in
+  let wa := {| w_data := []; w_pos := 0; w_reads := 0; w_heap := [sl_buf r]; w_sizes := [] |} in
   let c := {| c_type := UTF8_TEXT; c_src := if sl_tuple r then Stored (sl_buf r) else InList 0 |} in
   match copy_content c wa with
   | (Raised e, _) => OSnapList false (Raised e) (Raised e) (Raised e)          (* cannot happen *)
@@ -71,7 +73,7 @@ Definition model_snaplist (r : snaplist_in) : obs :=
   end.
 
 Definition model_readerlist (buffer : bool) (r : snaplist_in) : obs :=
-  let wa := {| w_data := []; w_pos := 0; w_reads := 0; w_heap := [sl_buf r] |} in
+  let wa := {| w_data := []; w_pos := 0; w_reads := 0; w_heap := [sl_buf r]; w_sizes := [] |} in
   match content_from_reader (if sl_tuple r then Stored (sl_buf r) else InList 0) None buffer wa with
   | (Raised e, _) => OReaderList (Raised e) (Raised e)          (* cannot happen *)
   | (Ok c, wb) =>
@@ -108,6 +110,7 @@ Definition model (i : input) : obs :=
       end
   | IMime ct =>
       OMime ct (make_content_type (render ct))
+  | IHist ct chunks oracle ops => OHist (read_history ct chunks oracle ops)
   end.
 
 (* ---------------- comparison ----------------
@@ -123,6 +126,14 @@ Definition bres_eqb (a b : bres) : bool :=
 
 Definition perr_eqb (a b : perr) : bool :=
   match a, b with OutOfModel, OutOfModel | ExceptionCantParse, ExceptionCantParse => true | _, _ => false end.
+
+Definition hres_eqb (a b : hres) : bool :=
+  match a, b with
+  | RNew e, RNew f => option_eqb exn_eqb e f
+  | RNoIter, RNoIter | RStepped, RStepped => true
+  | RRead t, RRead u => tres_eqb t u
+  | _, _ => false
+  end.
 
 Definition obs_eqb (a b : obs) : bool :=
   match a, b with
@@ -141,6 +152,7 @@ Definition obs_eqb (a b : obs) : bool :=
   | OReaderList i1 j1, OReaderList i2 j2 => bres_eqb i1 i2 && bres_eqb j1 j2
   | OEq e1 n1, OEq e2 n2 => Bool.eqb e1 e2 && Bool.eqb n1 n2
   | OMime c1 r1, OMime c2 r2 => ctype_eqb c1 c2 && Bool.eqb (survives c1 r1) (survives c2 r2)
+  | OHist r1, OHist r2 => list_eqb hres_eqb r1 r2
   | _, _ => false
   end.
 
@@ -160,7 +172,8 @@ Inductive aobs :=
 | ASnapList (same : bool) (c1 c2 orig : ab)
 | AReaderList (it1 it2 : ab)
 | AEq (eq ne : bool)
-| AMime (echo : ctype) (survived : bool).
+| AMime (echo : ctype) (survived : bool)
+| AHist (rs : list hres).
 
 Definition alpha (o : obs) : aobs :=
   match o with
@@ -174,4 +187,5 @@ Definition alpha (o : obs) : aobs :=
   | OReaderList i j => AReaderList (alpha_b i) (alpha_b j)
   | OEq e n => AEq e n
   | OMime c r => AMime c (survives c r)
+  | OHist r => AHist r
   end.
